@@ -443,7 +443,14 @@ class SFloat(Sym):
         if not robust and getattr(c, 'nonrobust_int', None) == 'choose' and self.aff.bounds()[0] is not None and (self.zsafe or self.aff.bounds()[0] >= self.err):
             # contract mode chosen by the driver: the truncation of a value within err of e is any integer between
             # floor(e - err) and floor(e + err) (no robustness obligation; the caller's contract must tolerate it)
+            # one value has one truncation: the same exact term truncated twice on a path (a function called twice with the
+            # same argument) gives the same integer - floating-point evaluation is deterministic
+            memo = c.__dict__.setdefault('int_choice_memo', {})
+            k = (self.t.get_id(), str(self.err))
+            if k in memo:
+                return SInt(memo[k][1])
             r2 = c.fresh('fli')
+            memo[k] = (self.t, r2)
             E = z3.RealVal(str(self.err))
             c.assume(z3.And(z3.ToReal(r2) <= self.t + E, z3.ToReal(r2) + 1 > self.t - E, r2 >= 0))
             lo, hi = self.aff.bounds()
@@ -700,6 +707,81 @@ class SFloat(Sym):
         r.zsafe = self.zsafe
         return r
 
+    def _repr_by_enumeration(self, limit=400000, max_exceptions=48):
+        import itertools
+        c = ctx()
+        names = sorted(self.aff.cs)
+        rngs = []
+        total = 1
+        for n in names:
+            if n not in c.var_ranges:
+                return None
+            lo, hi, _ = c.var_ranges[n]
+            if lo is None or hi is None:
+                return None
+            lo, hi = math.ceil(lo), math.floor(hi)
+            total *= max(1, hi - lo + 1)
+            if total > limit:
+                return None
+            rngs.append(range(lo, hi + 1))
+        key = ('repr-enum', tuple(names), tuple((r.start, r.stop) for r in rngs), id(self.cf))
+        memo = _ENUM_MEMO.get(key)
+        if memo is None:
+            bad = []
+            for vals in itertools.product(*rngs):
+                e = self.aff.c0 + sum(self.aff.cs[n] * v for n, v in zip(names, vals))
+                try:
+                    x = self.cf(dict(zip(names, vals)))
+                except (KeyError, ZeroDivisionError, OverflowError):
+                    return None
+                if x != float(e):
+                    bad.append((vals, x))
+                    if len(bad) > 30000:
+                        break
+            memo = _ENUM_MEMO[key] = bad
+            if len(_ENUM_MEMO) > 64:
+                _ENUM_MEMO.pop(next(iter(_ENUM_MEMO)))
+        bad = memo
+        # exceptional inputs compatible with the path (a solver call each; the list is short once the path pins some digits)
+        live = []
+        if len(bad) > 4 * max_exceptions:
+            live = None
+        else:
+            for vals, x in bad:
+                cond = z3.And(*[c.var_ranges[n][2] == v for n, v in zip(names, vals)])
+                if c.feasible(cond):
+                    live.append((cond, x))
+                    if len(live) > max_exceptions:
+                        live = None
+                        break
+        if live is None:
+            # many exceptional inputs: they are kept as ONE case whose text is only known as "a decimal within the rounding
+            # error of the exact value, not equal to it, on the side CPython's evaluation falls" (enough for Decimal()/float())
+            if len(bad) > 30000:
+                raise OutOfSubset('repr of a computed float: more than 30000 inputs give a double that is not the nearest one')
+            conds, below = [], []
+            for vals, x in bad:
+                cond = z3.And(*[c.var_ranges[n][2] == v for n, v in zip(names, vals)])
+                e = self.aff.c0 + sum(self.aff.cs[n] * v for n, v in zip(names, vals))
+                conds.append(cond)
+                if Fraction(x) < e:
+                    below.append(cond)
+            c.assumptions.add('repr of a computed double: the computation is evaluated in CPython at every input of the finite declared ranges')
+            if c.decide(z3.Or(*conds)):
+                return SInexactRepr(self, z3.Or(*below) if below else z3.BoolVal(False))
+            live = []
+        c.assumptions.add('repr of a computed double: the computation is evaluated in CPython at every input of the finite declared ranges; '
+                          'inputs where it is not the double nearest the exact decimal are split off with their concrete text')
+        for cond, x in live:
+            if c.decide(cond):
+                return repr(x)
+        twin = SFloat(self.aff, None, 0)
+        twin.err = twin.mag * U
+        twin.nearest = True
+        twin.zsafe = self.zsafe
+        twin.cf = self.cf
+        return twin._sym_repr()
+
     def _sym_repr(self):
         """repr(x) of a double known exactly (err = 0): shortest round-tripping text, positional iff 1e-4 <= |x| < 1e16.
         Modelled for 0 <= x < 1 only (the use in format_seconds_as_time); else outside the encoding."""
@@ -729,6 +811,13 @@ class SFloat(Sym):
                     if len(cells) - dot - 1 > 1 and not isinstance(last, str):
                         cells[-1] = S.narrow(last, last.cc.minus(S.CC.of('0')))
                 return S.mk(cells)
+        if self.err != 0 and self.cf is not None and self.aff is not None and self.aff.all_int_vars() and self.mag < 10 ** 15:
+            # a computed double whose exact value is a short decimal N/10^p: evaluate the computation in CPython at EVERY input
+            # of the (finite) declared ranges; where it yields the double nearest the exact value the text is that decimal's
+            # canonical spelling, the finitely many other inputs are split off one by one with their concrete text
+            r = self._repr_by_enumeration()
+            if r is not None:
+                return r
         if self.err != 0:
             raise OutOfSubset('repr of an inexactly known float')
         if c.decide(self.t == 0):
@@ -1008,6 +1097,55 @@ def float_of_decimal_text(s, allow_exponent=False):
     return r
 
 
+_ENUM_MEMO = {}
+
+
+class SInexactRepr(Sym):
+    """repr(x) of a computed double that is NOT the double nearest its exact decimal value e: a long decimal text whose value
+    lies within the rounding error of e, differs from e, and is below e exactly when `below` holds.  Only the conversions
+    Decimal(text) and float(text) are modelled; anything else is outside the encoding."""
+    _pytype = str
+
+    def __init__(self, f, below):
+        self.f, self.below = f, below
+
+    def _sym_decimal(self):
+        c = ctx()
+        v = c.fresh('rv', 'real')
+        E = z3.RealVal(str(self.f.err))
+        e = self.f.t
+        c.assume(z3.If(self.below, z3.And(v < e, v >= e - E), z3.And(v > e, v <= e + E)))
+        return SReal(v)
+
+    def _sym_float(self):
+        return self.f                  # float(repr(x)) == x
+
+    def _sym_str(self):
+        return self
+
+    def strip(self, *a):
+        return self
+
+    def __getattr__(self, name):
+        if name.startswith('__'):
+            raise AttributeError(name)
+        raise OutOfSubset('str.%s on the long repr of a computed float' % name)
+
+
+def _sreal_int(self, *a):
+    """int(Decimal-like exact real): truncation toward zero, exact"""
+    c = ctx()
+    r = c.fresh('trunc')
+    if c.decide(self.t >= 0):
+        c.assume(z3.And(z3.ToReal(r) <= self.t, self.t < z3.ToReal(r) + 1))
+    else:
+        c.assume(z3.And(z3.ToReal(r) >= self.t, self.t > z3.ToReal(r) - 1))
+    return SInt(r)
+
+
+SReal._sym_int = _sreal_int
+
+
 def _sreal_float(self):
     """float(Decimal-like exact real): nearest double"""
     a = _aff_of_term(z3.simplify(self.t))
@@ -1051,6 +1189,8 @@ def s_Decimal(x=0, *a):
         return SReal(z3.ToReal(n) / z3.RealVal(10 ** k))
     if isinstance(x, SInt):
         return SReal(z3.ToReal(x.t))
+    if hasattr(x, '_sym_decimal'):
+        return x._sym_decimal()
     if isinstance(x, SFloat):
         raise OutOfSubset('Decimal() of a float proxy')
     return Decimal(x, *a)
